@@ -300,7 +300,10 @@ class SymReal:
         except TypeError:
             return True
 
-    __hash__ = None
+    def __hash__(s):
+        # One bucket: a dict / set / lru_cache keyed on a looked-up value then compares its keys with ``==`` - i.e. through the solver -
+        # exactly as CPython does for floats that happen to collide.  (Unhashable proxies made every such cache a harness error.)
+        return 0
 
     def __bool__(s):
         # Python truthiness of a number: x != 0 (e.g. `table.get(phase) or default`)
